@@ -363,6 +363,7 @@ def run(ctx: Ctx, driver: Driver):
         ctx.nontrivial.add(("coap-enc", n))
     compare_with_model(ctx, "coap-enc", cases, outs, lines, driver)
     attribution_oracle(ctx)
+    coap_batch_end_to_end(ctx)
     loop.close()
 
 
@@ -376,6 +377,91 @@ def impl_coap_dec(start, data):
         return "err value"
     except Exception as e:  # noqa: BLE001
         return "exc " + type(e).__name__
+
+
+def coap_batch_end_to_end(ctx: Ctx):
+    """EncryptionContext.post_all end to end (real ChaCha20-Poly1305 both ways): a conformant accessory decrypts the batch,
+    answers every item under the transaction id the request gave it (per-item outcomes scripted), and the i-th result must
+    belong to the i-th item.  The library's random source is pinned to values at both ends of the tid range, so any use of
+    it for batch transaction ids is exercised at the wrap."""
+    import asyncio
+    import random as _random
+    from unittest import mock
+
+    from cryptography.hazmat.primitives.ciphers.aead import ChaCha20Poly1305
+
+    import aiohomekit.controller.coap.connection as coapc
+    rng = ctx.rng
+    k_c2a, k_a2c = bytes(range(32)), bytes(range(32, 64))
+
+    async def one(iids, datas, outcomes, pinned):
+        class Resp:
+            def __init__(self, payload):
+                self.payload = payload
+                self.code = coapc.Code.CHANGED
+        seen = {}
+
+        class CoapCtx:
+            def request(self, msg):
+                plain = ChaCha20Poly1305(k_c2a).decrypt(struct.pack("=4xQ", 0), bytes(msg.payload), b"")
+                out = b""
+                off = 0
+                items = []
+                while off < len(plain):
+                    control, opcode, tid, iid, ln = struct.unpack("<BBBHH", plain[off:off + 7])
+                    items.append((tid, iid, plain[off + 7:off + 7 + ln]))
+                    off += 7 + ln
+                seen["items"] = items
+                for (tid, iid, body), oc in zip(items, outcomes):
+                    if oc == "ok0":
+                        out += struct.pack("<BBBH", 0b10, tid, 0, 0)
+                    elif oc == "okn":
+                        b = bytes([1, 2, iid & 0xFF, tid])
+                        out += struct.pack("<BBBH", 0b10, tid, 0, len(b)) + b
+                    else:
+                        out += struct.pack("<BBBH", 0b10, tid, int(oc[1:]), 0)
+                f = asyncio.get_event_loop().create_future()
+                f.set_result(Resp(ChaCha20Poly1305(k_a2c).encrypt(struct.pack("=4xQ", 0), out, b"")))
+
+                class R:
+                    response = f
+                return R()
+
+            async def shutdown(self):
+                pass
+        ectx = coapc.EncryptionContext(ChaCha20Poly1305(k_a2c), ChaCha20Poly1305(k_c2a), ChaCha20Poly1305(bytes(32)), "coap://x/", CoapCtx())
+        seq = iter(pinned)
+        with mock.patch.object(coapc.random if hasattr(coapc, "random") else _random, "randint", lambda a, b: min(max(next(seq, a), a), b)):
+            res = await ectx.post_all(cp.OpCode.CHAR_READ, iids, datas)
+        return res, seen.get("items")
+
+    loop = asyncio.new_event_loop()
+    try:
+        for trial in range(ctx.budget(60, 800)):
+            n = rng.randrange(1, 7)
+            iids = rng.sample(range(1, 300), n)
+            datas = [bytes(rng.randrange(256) for _ in range(rng.choice([0, 0, 1, 5]))) for _ in range(n)]
+            outcomes = [rng.choice(["ok0", "okn", "okn", "e6", "e2"]) for _ in range(n)]
+            pinned = [rng.choice([254, 253, 252, 251, 250, 1, 2, 128])] * 4
+            ctx.evaluations += 1
+            case = {"stream": "coap-batch", "iids": iids, "outcomes": outcomes, "pinned_random": pinned[0]}
+            try:
+                res, items = loop.run_until_complete(one(iids, datas, outcomes, pinned))
+            except Exception as e:  # noqa: BLE001
+                ctx.violation("coap/batch-raised", f"post_all of {n} items raised {type(e).__name__}: {e}", case)
+                continue
+            want = []
+            for (tid, iid, body), oc in zip(items or [], outcomes):
+                want.append(b"" if oc == "ok0" else (bytes([1, 2, iid & 0xFF, tid]) if oc == "okn" else cp.PDUStatus(int(oc[1:]))))
+            if items is None or [i for _, i, _ in items] != iids or [b for _, _, b in items] != datas:
+                ctx.violation("coap/batch-request", f"the batch request does not carry the requested items in order: {items}", case)
+            elif list(res) != want:
+                tids = [t for t, _, _ in items]
+                ctx.violation("coap/batch-positional", f"batch of {n} items sent under tids {tids}, the accessory answered {outcomes} item by item under those tids; post_all returned {[r if isinstance(r, bytes) else r.name for r in res]}", case)
+            ctx.nontrivial.add(("coap-batch", n, tuple(outcomes), pinned[0] > 200))
+            ctx.dist["coap-batch"] += 1
+    finally:
+        loop.close()
 
 
 def attribution_oracle(ctx: Ctx):
